@@ -682,6 +682,28 @@ def repr_rule(ctx, P):
     ctx.check(r, len(ks) == 1 and None not in ks and nf and set(nf) == ks and min(ks) > 0, key(st, "sum-nframe"), st.where(st.root), "import sets sum = mean * %s but nframe = %s: the next update would compute a different mean from what was imported" % (sorted(map(str, ks)), nf))
 
 
+def cache_rule(ctx, P):
+    r = ctx.rule("GUARD.score-cache", "acmod_score hands out the scores it kept from an earlier request for the same frame only when all senones were computed (compallsen): otherwise the array is valid for the senones active at that time only, every other slot holds the un-normalised fill value, and a second request with another active set would get scores whose best is not zero", floor=1)
+    f = P.fn("acmod_score", "acmod.c")
+    ctx.touch(f)
+    evs = [c for c in f.find("Call") if f.nodes[c].get("callee") in ("ps_mgau_frame_eval",) or (f.nodes[c].get("slot") or [None, None])[1] == "frame_eval" or "frame_eval" in f.canon(c, subst=False).split("(")[0]]
+    if not evs:
+        raise AnalysisIncomplete("acmod_score: scoring call not found")
+    n = 0
+    for rt in f.find("Return"):
+        if not f.ch(rt) or not f.canon(f.ch(rt)[0], subst=False).endswith("->senone_scores"):
+            continue
+        # a return of the score array that can be reached without scoring
+        if not f.cfg.path_exists((f.cfg.entry, 0), lambda e, rt=rt: e == rt, is_barrier=lambda e: e in evs, start_after=False):
+            continue
+        n += 1
+        g = paths.guarded(f, rt, lambda fn, cc, pol: paths.cond_atoms(fn, cc, pol, subst=False) == ("%s->compallsen" % f.params[0][0], True))
+        g2 = paths.guarded(f, rt, lambda fn, cc, pol: paths.rel(fn, cc, pol, subst=False) is not None and paths.rel(fn, cc, pol, subst=False)[1] == "==" and "senscr_frame" in " ".join(paths.rel(fn, cc, pol, subst=False)))
+        ctx.check(r, g and g2, key(f, "reuse@%d" % f.line(rt)), f.where(rt), "kept scores are handed out without the tests `compallsen` and `frame_idx == senscr_frame`")
+    if n < 1:
+        raise AnalysisIncomplete("acmod_score: no reuse of kept scores found")
+
+
 def run(ctx):
     P = ctx.P
     names = P.reachable_functions(DECODE_ROOTS)
@@ -693,6 +715,7 @@ def run(ctx):
     if len(decode) < 150:
         raise AnalysisIncomplete("decode-path function set shrank to %d" % len(decode))
     log_rule(ctx, P, decode)
+    cache_rule(ctx, P)
     div_rule(ctx, P, decode)
     cast_rule(ctx, P, decode)
     clamp_rule(ctx, P)
